@@ -50,16 +50,26 @@ Definition kf17_of (n : node) : list string :=
   match n with
   | Other k bs _ => if String.eqb k "ExceptHandler" then [] else bs
   | SClassDef name _ _ => [name]
+  (* finding KF_C17_5: the target of a namedtuple declaration inside a function is registered as a class only when the
+     declaration is well formed and one-to-one; otherwise nothing is registered and later uses of the target warn *)
+  | SAssign ts v _ => if looks_namedtuple v then flat_map (fun t => match t with EName id _ _ => [id] | _ => [] end) ts else []
+  | SAnnAssign (EName id _ _) _ [v] _ | SAugAssign (EName id _ _) v _ => if looks_namedtuple v then [id] else []
   | _ => []
   end.
 Definition kf17_names (fn : node) : list string := flat_map (fold_nodes kf17_of) (body_of fn).
 
 (* reads that must be warned about: a demanded Load of a name bound nowhere in the file (and not a
    builtin), or of a local variable after `del` of that variable *)
+(* finding KF_C17_6: an assignment to an attribute or an item of a name (`x.y = v`, `x[i] = v`) registers the name x
+   itself (the targets are unravelled to their base names) - before the right-hand side is visited - so a read of x
+   that Python would reject (x deleted or never bound) is not warned about in a function that has such a target *)
+Definition attr_store_bases (fn : node) : list string :=
+  flat_map (fold_nodes (fun n => match n with EAttr _ _ Store _ | ESub _ _ Store _ => [spell_base n] | _ => [] end)) (body_of fn).
+
 Definition must_warn (k : fa_case) : list site :=
   let everywhere := bound_anywhere (globals_of (fc_ctx k)) (fc_fn k) in
   let locals := fn_params (fc_fn k) ++ flat_map (fold_nodes binders_of) (body_of (fc_fn k)) in
-  filter (fun s => st_demanded s && negb (st_bound s)
+  filter (fun s => st_demanded s && negb (st_bound s) && negb (mem (st_name s) (attr_store_bases (fc_fn k)))
                    && (negb (mem (st_name s) everywhere)
                        || (st_deleted s && mem (st_name s) locals && negb (mem (st_name s) (globals_of (fc_ctx k))))))
          (sites_for k).
